@@ -33,11 +33,13 @@ func buildLib(s *exact.Shape, ic IdxCfg, closed bool) libShape {
 // applies).  This reaches coordinates such as 2 + 2^-17 that the oracle's
 // 1/16 lattice cannot hold.
 func buildLibScaled(s *exact.Shape, ic IdxCfg, closed bool, sc float64) libShape {
+	return buildLibEnc(s, ic, closed, FEnc{Sc: sc})
+}
+
+// buildLibEnc builds the library shape under an exact affine encoding.
+func buildLibEnc(s *exact.Shape, ic IdxCfg, closed bool, enc FEnc) libShape {
 	l := libShape{src: s, ic: ic, clos: closed}
-	sp := func(p exact.P) geometry.Point {
-		q := gpt(p)
-		return geometry.Point{X: q.X * sc, Y: q.Y * sc}
-	}
+	sp := enc.Pt
 	sps := func(ps []exact.P, cl bool) []geometry.Point {
 		out := make([]geometry.Point, 0, len(ps)+1)
 		for _, p := range ps {
@@ -97,6 +99,15 @@ func (e FEnc) Pts(ps []exact.P) []geometry.Point {
 	}
 	return out
 }
+
+// allEncs: pure power-of-two scalings and the fine encodings.
+var allEncs = func() []FEnc {
+	var out []FEnc
+	for _, sc := range libScales {
+		out = append(out, FEnc{Name: fmt.Sprintf("scale %g", sc), Sc: sc})
+	}
+	return append(out, fineEncs...)
+}()
 
 var fineEncs = []FEnc{
 	{"2^-10 at (2^20-4, -(2^20-4))", 1.0 / 1024, 1<<20 - 4, -(1<<20 - 4)},
@@ -326,10 +337,15 @@ func attribute(events []*geometry.VerifEvent) attribution { return attributeScal
 
 // attributeScaled judges leaf events recorded from shapes built at scale sc.
 func attributeScaled(events []*geometry.VerifEvent, sc float64) attribution {
+	return attributeEnc(events, FEnc{Sc: sc})
+}
+
+// attributeEnc judges leaf events recorded from shapes built under enc.
+func attributeEnc(events []*geometry.VerifEvent, enc FEnc) attribution {
 	at := attribution{Events: len(events)}
 	for _, e := range events {
-		if sc != 1 {
-			e = descale(e, 1/sc)
+		if enc.Sc != 1 || enc.TX != 0 || enc.TY != 0 {
+			e = descale(e, enc)
 		}
 		le := judgeLeaf(e)
 		if le.Judged && le.Got != le.Want {
@@ -424,10 +440,12 @@ func entryGuess(at attribution) string {
 
 func jsonUnmarshal(b []byte, v interface{}) error { return json.Unmarshal(b, v) }
 
-// descale returns a copy of the event with all coordinates multiplied by inv.
-func descale(e *geometry.VerifEvent, inv float64) *geometry.VerifEvent {
+// descale returns a copy of the event with the encoding undone.
+func descale(e *geometry.VerifEvent, enc FEnc) *geometry.VerifEvent {
 	c := *e
-	mp := func(p geometry.Point) geometry.Point { return geometry.Point{X: p.X * inv, Y: p.Y * inv} }
+	mp := func(p geometry.Point) geometry.Point {
+		return geometry.Point{X: (p.X - enc.TX) / enc.Sc, Y: (p.Y - enc.TY) / enc.Sc}
+	}
 	c.Seg = geometry.Segment{A: mp(e.Seg.A), B: mp(e.Seg.B)}
 	ser := func(s geometry.Series) []geometry.Point {
 		n := s.NumPoints()
